@@ -89,7 +89,7 @@ def verus_pass(vacuity, seed_args=None, tag="", extracted=None):
         "failed_clauses": {f"{k[0]}|{k[1]}": v[:2] for k, v in fc.items()},
         "failed_fns": {k: v[:3] for k, v in ff.items()},
         "panic_fns": {k: v[:3] for k, v in getattr(A, "panic_fns", {}).items()},
-        "calls_uncontracted": A.calls_uncontracted, "lost_contracts": A.lost_contracts,
+        "calls_uncontracted": A.calls_uncontracted, "lost_contracts": A.lost_contracts, "auto_contracts": A.auto_contracts,
         "failed_theorems": {k: v[:2] for k, v in tf.items()},
         "hard": hard[:10], "rlimit": rl[:10],
         "contracted": A.contracted, "uncontracted": A.uncontracted, "external": A.external, "refused": A.refused,
@@ -617,6 +617,7 @@ def write_evidence(pid, tier, seed, P, vr, alt_reports, holds, violations, known
             "deciding_alternative": rep["name"],
             "functions_under_contract": rep["fns"],
             "functions_under_contract_total": len(main["contracted"]), "functions_without_contract": main["uncontracted"], "functions_assumed_external": main["external"],
+            "functions_with_generated_contract": main.get("auto_contracts", []),
             "obligation_list": obligations,
             "verus": {"verified_fns": main["verified"], "errors": main["errors"], "wall_s": main["wall"], "smt_ms_total": main["smt_ms"], "cache_hit": vr.get("cache_hit", False),
                       "vacuity_twin": {"functions_whose_false_clause_failed_as_required": sum(1 for k in vac["failed_clauses"] if k.endswith("|__vacuity")), "wall_s": vac["wall"]}},
